@@ -1378,6 +1378,8 @@ func (self *_Assembler) _asm_OP_num(_ *_Instr) {
 	self.Sjmp("JNE", "_skip_number_{n}")
 	self.Emit("MOVQ", jit.Imm(1), _VAR_fl)
 	self.Emit("ADDQ", jit.Imm(1), _IC)
+	/* the native skip_number reads the byte under the cursor unconditionally */
+	self.check_eof(1)
 	self.Link("_skip_number_{n}")
 
 	/* call skip_number */
